@@ -123,6 +123,25 @@ theorem strip_keeps_line_count (cs : List Char) (h : endsInComment false cs = fa
   have := strip_count cs false
   simpa [Driver.stripComments, h] using this
 
+/-! ### what a spelling table may answer -/
+
+/-- the documented synonyms (Intel manual / syntax.md): the only spellings whose canonical form is not
+    the spelling itself in lower case -/
+def synonyms : List (List Char × List Char) :=
+  [("repe".toList, "repz".toList), ("repne".toList, "repnz".toList), ("shl".toList, "sal".toList),
+   ("jna".toList, "jbe".toList), ("jnae".toList, "jb".toList), ("jnb".toList, "jae".toList), ("jnbe".toList, "ja".toList),
+   ("jng".toList, "jle".toList), ("jnge".toList, "jl".toList), ("jnl".toList, "jge".toList), ("jnle".toList, "jg".toList),
+   ("jnz".toList, "jne".toList), ("jpe".toList, "jp".toList), ("jpo".toList, "jnp".toList), ("jz".toList, "je".toList),
+   ("loopnz".toList, "loopne".toList), ("loopz".toList, "loope".toList)]
+
+/-- **Every entry of every spelling table of the CURRENT grammar** answers the spelling itself in
+    lower case, or the canonical form of a documented synonym — nothing else (a table row can
+    neither turn `HLT` into `cli` nor `SS` into `ds`). -/
+theorem tables_identity_or_synonym :
+    Gen.PP.retTables.all (fun t => t.2.all fun e =>
+      e.2 == e.1.map lowerC || synonyms.contains (e.1.map lowerC, e.2)) = true := by
+  decide +kernel
+
 /-! ### the emission templates use their operands completely and in source order -/
 
 def argsOf (fmt : List Grammar.Piece) : List Nat := fmt.filterMap fun | .arg i => some i | _ => none
